@@ -240,7 +240,7 @@ def check(pid, tier, seed, update_expected=False):
                     return undecided(pid, tier, seed, t0, 'kani could not build the overlaid crate', r['raw_tail'])
                 for h in hs:
                     hr = r['harness'].get(h)
-                    oid = 'kani%s:%s' % ('[nobatch]' if g.get('no_default') else ('[ptr16]' if g.get('ptr16') else ''), h)
+                    oid = 'kani%s:%s' % ('[ptr16]' if g.get('ptr16') else ('[nobatch]' if g.get('no_default') else ''), h)
                     if hr is None or hr['status'] is None:
                         # no verdict for this harness (time-out, tool failure): the property is undecided unless another
                         # obligation of this run fails with a verdict
